@@ -7,4 +7,5 @@ cd /verif/harness
 cargo build --release -p vcheck -p vcheck-tantivy
 cargo build --release --manifest-path /repo/Cargo.toml --target-dir /verif/target/repo-bins \
   -p predict -p evaluate -p manipulate_model
+/verif/tools/build_workers.sh quick
 echo "setup ok"
